@@ -38,10 +38,10 @@ EpDom == [ts : 0..8, v : Dom]
 
 Init == S!EInit
 Next ==
-  \/ \E ts \in 0..8, c \in -2..1, n \in 0..23 : S!ELoad(ts, c, n)
+  \/ \E ts \in 0..8, c \in -2..1, n \in {0, 1, 3, 9, 10, 12, 17, 19, 20, 21, 23} : S!ELoad(ts, c, n)
   \/ \E b \in {-21, -7, -1, 0, 1, 2, 9, 20} : S!EAddD(b) \/ S!ESubD(b)
   \/ \E ts2 \in 0..8, x \in Dom : S!EToScale(ts2, S!Ep(ts2, x))
-  \/ \E fts \in 0..8, fv \in 6..32, c \in {-1, 0, 1} : S!ECmp(S!Ep(fts, fv), c)
+  \/ \E fts \in 0..8, fv \in 6..32 : \E c \in {-1, 0, 1} : S!ECmp(S!Ep(fts, fv), c)
   \/ \E s \in {-3, 0, 1, 7} : S!EFloor(s) \/ (\E r \in Dom : S!ECeil(s, r) \/ S!ERound(s, r))
 Spec == Init /\ [][Next]_<<e, eout>>
 
